@@ -33,12 +33,13 @@ theorem genCfg_recvOk : RecvOk genCfg := by
 
 /-- the relation is recorded under the key of the transfer itself and both callbacks compute the key from the packet's
 SOURCE channel and its sequence -/
-theorem genCfg_sound : Sound genCfg := ⟨by decide, by decide, by decide, by decide, by decide, by decide, by decide⟩
+theorem genCfg_sound : Sound genCfg :=
+  ⟨by decide, by decide, by decide, by decide, by decide, by decide, by decide, by decide⟩
 
 /-- every branch of `OnAcknowledgementPacket` / `OnTimeoutPacket` deletes under the prefix, channel end and sequence the
 record was written under -/
 theorem genCfg_removes : Removes genCfg :=
-  ⟨by decide, by decide, by decide, by decide, by decide, by decide, by decide, by decide⟩
+  ⟨by decide, by decide, by decide, by decide, by decide, by decide, by decide, by decide, by decide⟩
 
 /-! ## 1. inbound transfer: exact credit in ERC-20 form, or error acknowledgement and nothing changes -/
 
@@ -258,6 +259,26 @@ theorem evm_refund_credits_erc20 (ops : List Op) (e : SentRec) (mode : Mode) (hm
   have hTo : genCfg.refundToSender = true := by decide
   exact settle_refund_credits genCfg genCfg_sound hE hT hTo (run init ops) e mode hm h he hB hc hmeta
 
+/-- A transfer that was NOT started from the EVM (plain `MsgTransfer` of FX or of a native coin, with or without a
+token pair) is refunded in the form it left in: in any reachable state a processed error acknowledgement / timeout puts
+exactly the amount back on the sender's bank balance (sender other than the escrow account), changes no other
+denomination of anybody, changes no ERC-20 balance, and logs a refund that is not in ERC-20 form — whatever EVM-started
+transfers are in flight on whatever channels (their records are never mistaken for this transfer's). -/
+theorem cosmos_refund_in_bank_form (ops : List Op) (l : Ch) (seq : Seq) (p : Pkt) (mode : Mode) (hm : mode ≠ .ackOk)
+    (hlk : lookup (l, seq) (run init ops).ctl.commits = some p) (hev : p.evm = false) :
+    let s := run init ops
+    let r := step s (.settle l seq mode)
+    r.2.isDone →
+      r.1.bal.erc = s.bal.erc ∧
+      (p.sender ≠ escrow l → sget r.1.bal.bank (p.sender, bankDenom p.tok l) = sget s.bal.bank (p.sender, bankDenom p.tok l) + p.amt) ∧
+      (∀ a d, d ≠ bankDenom p.tok l → sget r.1.bal.bank (a, d) = sget s.bal.bank (a, d)) ∧
+      r.1.ctl.refundLog = ⟨l, seq, p.sender, p.tok, p.amt, false⟩ :: s.ctl.refundLog := by
+  obtain ⟨_, hl⟩ := run_life genCfg genCfg_sound genCfg_removes ops init inv_init life_init
+  have hE : genCfg.ackErrRefunds = true := by decide
+  have hT : genCfg.timeoutRefunds = true := by decide
+  have hG : genCfg.refundGuarded = true := by decide
+  exact settle_refund_cosmos genCfg genCfg_sound hE hT hG (run init ops) l seq p mode hm hl hlk hev
+
 /-- LIMITATION of the tree as it stands (reproduced on the real code, `fixes/C19-alias-metadata-refund.md`): when the
 aliased voucher of the channel has bank metadata of its own (the transfer module writes it for every denom trace in
 `InitGenesis` and in its `MigrateDenomMetadata` migration) and `IBCCoinToBaseCoin` asks `ManyToOne` first (`haf`), the
@@ -294,8 +315,9 @@ theorem relation_removed_on_failure_partial (s : State) (l : Ch) (seq : Seq) (mo
   have hS : genCfg.refundSees = true := by decide
   have hC : genCfg.refundChan = .src := by decide
   have hQ : genCfg.refundSeq = true := by decide
+  have hP : genCfg.deleteReports = true := by decide
   intro r hd
-  have := settle_removes_failure genCfg hE hT hS hC hQ s l seq mode hm hd
+  have := settle_removes_failure genCfg hE hT hS hC hQ hP s l seq mode hm hd
   refine ⟨?_, this⟩
   show (l, seq) ∉ (stepWith genCfg s (.settle l seq mode)).1.ctl.rel
   rw [this]; exact not_mem_dropRel _ _
@@ -478,7 +500,7 @@ Theorems of this file:
   intermediate_sender_shape, intermediate_sender_preimage_injective, intermediate_sender_not_local,
   memo_channel_end, memo_call_sender_flow, memo_call_sender_not_local, memo_sender_distinct_per_local_channel,
   memo_sender_collision_across_counterparties, memo_sender_distinct_per_local_channel_partial,
-  refund_exactly_once, evm_refund_credits_erc20, alias_metadata_refund_stuck, alias_metadata_refund_stuck_witness,
+  refund_exactly_once, evm_refund_credits_erc20, cosmos_refund_in_bank_form, alias_metadata_refund_stuck, alias_metadata_refund_stuck_witness,
   relation_removed_on_failure_partial, relation_removed_always, settle_touches_only_its_record,
   relation_removed_always_reachable, relation_records_are_inflight, evm_transfer_settled_one_way,
   genCfg_is_ref, success_ack_keeps_relation_witness, success_ack_removes_relation_fixed,
